@@ -30,7 +30,7 @@ def gen_orbit_spec(rng, kind, real_eop=False):
     if kind in ("kepler", "j2", "none"):
         return {"kind": kind, "kep": rand_kep(rng), "frame": rng.choice(["EME2000", "EME2000", "TEME", "GCRF", "MOD"]) if kind != "j2" else "EME2000", "epoch": rand_epoch(rng, real_eop), "scale": "TAI" if real_eop else rng.choice(["UTC", "UTC", "TT", "TAI"])}
     if kind == "keplernum":
-        return {
+        spec = {
             "kind": "keplernum",
             "kep": rand_kep(rng, leo=True),
             "frame": "EME2000",
@@ -39,6 +39,7 @@ def gen_orbit_spec(rng, kind, real_eop=False):
             "step_s": rng.choice([30, 60, 60, 120]),
             "method": rng.choice(["rk4", "rk4", "dopri54", "rkf54"]),
         }
+        return add_num_mans(spec)
     if kind == "cw":
         sma = rng.choice([rng.uniform(6.8e6, 7.5e6), 4.2164e7])
         spec = {
@@ -63,6 +64,33 @@ def gen_orbit_spec(rng, kind, real_eop=False):
                 t += dur
         return spec
     raise ValueError(kind)
+
+
+def add_num_mans(spec):
+    """Maneuvers carried by an orbit under the numerical propagator (impulsive in inertial / QSW / TNW axes, continuous, keplerian increments),
+    dated inside the spans the calls use, on and off the integration grid.  Drawn from a generator of their own (seeded by the spec), so that
+    the plans generated before this extension are unchanged apart from the added field."""
+    import random
+
+    r = random.Random("mans:" + repr(sorted(spec.items())))
+    if r.random() < 0.45:
+        return spec
+    mans = []
+    t = 0.0
+    for _ in range(r.choice([1, 1, 2, 3])):
+        t += r.choice([r.uniform(20, 1500), float(spec["step_s"] * r.randint(1, 20)), r.uniform(1, 59)])
+        q = r.random()
+        if q < 0.5:
+            mans.append({"type": "imp", "off_s": round(t, r.choice([0, 0, 3])), "dv": [r.uniform(-3, 3), r.uniform(-3, 3), r.uniform(-1, 1)], "frame": r.choice([None, "QSW", "TNW", "TNW"])})
+        elif q < 0.8:
+            dur = round(r.uniform(20, 400), 0)
+            mans.append({"type": "cont", "off_s": round(t, 0), "dur_s": dur, "dv": [r.uniform(-2, 2), r.uniform(-2, 2), r.uniform(-0.5, 0.5)], "frame": r.choice([None, "QSW", "TNW"])})
+            t += dur
+        else:
+            which = r.choice(["a", "i", "O", "ai", "aiO"])  # at least one non-zero increment (all-zero increments are outside C17's quantifier: 0 / 0)
+            mans.append({"type": "kep", "off_s": round(t, 0), "da": r.uniform(-5e3, 5e3) if "a" in which else 0.0, "di": r.uniform(-1e-3, 1e-3) if "i" in which else 0.0, "dOmega": r.uniform(-1e-3, 1e-3) if "O" in which else 0.0})
+    spec["mans"] = mans
+    return spec
 
 
 def span_scale_ms(spec):
